@@ -12,7 +12,7 @@ from .axioms import Axioms
 SOLVERS = {
     'z3': ['/usr/bin/z3', '-in'],
     'z3-new': ['z3-new', '-in'],
-    'cvc5': ['cvc5', '--lang', 'smt2', '--incremental'],
+    'cvc5': ['cvc5', '--lang', 'smt2'],
 }
 STATS = {'queries': 0, 'time': 0.0, 'by_solver': {}, 'by_result': {}}
 
@@ -59,6 +59,8 @@ def run_solver(script, solver='z3', timeout=20):
         cmd += ['-T:%d' % max(1, int(timeout))]
     else:
         cmd += ['--tlimit=%d' % int(timeout * 1000)]
+    if solver == 'cvc5':
+        script = '(set-logic ALL)\n' + script
     t0 = time.time()
     try:
         r = subprocess.run(cmd, input=script, capture_output=True, text=True, timeout=timeout + 5)
@@ -113,6 +115,10 @@ def parse_value(txt):
             pos[0] += 1
             args = []
             while toks[pos[0]] != ')':
+                if op == '_' and not args and toks[pos[0]] not in ('(',):
+                    args.append(toks[pos[0]])
+                    pos[0] += 1
+                    continue
                 args.append(ev())
             pos[0] += 1
             if op == '-':
@@ -128,9 +134,24 @@ def parse_value(txt):
                 return r
             if op == 'root-obj':
                 return None
+            if op == 'fp':
+                import struct as _st
+                bits = ''
+                for a in args:
+                    tt = a[1]
+                    bits += tt[2:] if tt.startswith('#b') else bin(int(tt[2:], 16))[2:].zfill(4 * (len(tt) - 2))
+                if len(bits) == 64:
+                    return Fraction(_st.unpack('<d', _st.pack('<Q', int(bits, 2)))[0]) if bits[1:12] != '1' * 11 else None
+                if len(bits) == 32:
+                    return Fraction(_st.unpack('<f', _st.pack('<I', int(bits, 2)))[0]) if bits[1:9] != '1' * 8 else None
+                return None
+            if op == '_':
+                return Fraction(0) if 'zero' in str(args[0]) else None
             if op == 'to_real':
                 return args[0]
             raise ValueError('value op ' + op)
+        if t.startswith('#b') or t.startswith('#x'):
+            return ('bits', t)
         if t.endswith('?'):
             t = t[:-1]
         try:
